@@ -50,11 +50,11 @@ CLAIMED = {
  "C19": dict(
   text="Per module (fee market, coinomics, epochs, liquid vesting, ERC20, DAO): ExportGenesis returns the abstract module view field by field, InitGenesis establishes view == document field by field (collections through fold invariants), and the compositions export;import and import;export are identities (ghost compositions proved from the two contracts).",
   design="§6 C19",
-  note="Leaf store accessors and iteration helpers are assumed contracts (key-prefix disjointness and codec round trips are assumed there); list/collection laws are explicit axioms. Known findings F3a (coinomics drops PrevBlockTs) and F3b (epochs rewrites start height) are listed. EVM state, auth vesting accounts and the app-level export are not covered."),
+  note="Leaf store accessors are assumed contracts (key-prefix disjointness and codec round trips are assumed there); the iteration helpers ExportGenesis relies on (ucdao GetAccountsBalances / GetTotalBalance, erc20 GetTokenPairs, epochs AllEpochInfos, liquidvesting GetAllDenoms) are verified against a KV-iterator model (every stored entry is visited once, in order: assumed of the store) - the link between their verified enumeration contracts and the abstract list functions the round-trip lemmas use is by reading, not by an obligation; list/collection laws are explicit axioms. Known findings F3a (coinomics drops PrevBlockTs) and F3b (epochs rewrites start height) are listed. EVM state, auth vesting accounts and the app-level export are not covered."),
  "C02": dict(
-  text="Proof of the write-back lemma the property rests on: keeper.SetBalance(addr, amount) leaves exactly amount as addr's bank balance in the EVM denomination, changes no other account and no other denomination, and moves the supply by exactly (amount - previous balance) - so the supply is unchanged by a commit exactly when the cached balances sum to the bank balances; together with the proved call-site clauses of StateDB.Commit (run under C05): every SetAccount call carries the cached record of a journal-dirty, not self-destructed object, DeleteAccount only self-destructed ones.",
-  design="§6 C02",
-  note="PARTIAL: only the keeper write-back and the Commit call sites are under contract. That EVM opcodes conserve the sum of cached balances is go-ethereum code outside /repo (assumed); that every Cosmos-side balance change made by a precompile is mirrored into the cache is NOT proved - it is violated on this tree (finding F5, DESIGN.md §7: a delegation made through a calling contract is re-minted at commit) and is recorded as a finding without a registered obligation yet. Bank keeper mint/burn/send are assumed exact contracts."),
+  text="Proof of the three places in /repo the statement rests on. (1) The write-back lemma: keeper.SetBalance(addr, amount) leaves exactly amount as addr's bank balance in the EVM denomination, changes no other account and no other denomination, and moves the supply by exactly (amount - previous balance). (2) StateDB.Commit writes back exactly the cached record of every journal-dirty, not self-destructed object (call-site clauses), and the journal part it depends on (entries' Revert, journal.Revert with exact per-address dirty counters, Suicide, RevertToSnapshot) is proved, so the set of accounts written back is exactly the set the transaction touched. (3) For the precompile methods that move liquid coins on the Cosmos side (staking.Delegate, distribution.WithdrawDelegatorRewards / WithdrawValidatorCommission, ics20.Transfer) the postcondition c02_mirrored demands that the cached balance of the debited / credited account moves by the same amount - otherwise the write-back overwrites it.",
+  design="§6 C02, §12.3 F5",
+  note="(3) FAILS on this tree and is recorded as known finding F5 (four obligations; the half that must hold - mirror exactly when the calling contract is the delegator / sender - is proved). Each is replayed on the real code by whole-transaction drivers (replay/*_precompile_test.go): signer sends value 1 to a contract that acts for the signer -> supply +1000 / -rewards / -commission. That EVM opcodes conserve the sum of cached balances is go-ethereum code outside /repo (assumed); ClaimRewards, CreateValidator and the bank/erc20 precompiles carry no mirror clause; bank keeper mint/burn/send are assumed exact contracts."),
  "C03": dict(
   text="Guard contracts, proved for every transaction (any number of messages): EthSigVerificationDecorator calls next only if every message is an Ethereum message whose sender, recovered with the signer built from this chain's own config and id, equals msg.From (and unprotected transactions only when allowed); EthIncrementSenderSequenceDecorator calls next only if each message's nonce equals the sender's current sequence, with the store sequence advanced by one per message (lemmas: a replay of an accepted list is refused; consecutive messages of one sender need consecutive nonces); EthValidateBasicDecorator admits no Cosmos-side signature/fee-payer/memo fields and fee/gas totals equal to the sums over the messages; the legacy EIP-712 decorator calls next only with exactly one signature whose sequence equals the account's and whose recovered key is the account's key over the typed-data hash of the sign bytes for this chain id, account number and sequence; ParseChainID is verified against its body.",
   design="§6 C03",
@@ -64,9 +64,9 @@ CLAIMED = {
   design="§6 C04",
   note="Known finding G2 (four obligations): for staking methods the grant's validator allow/deny list is consulted only after the message server ran. Not under contract: the staking/ICS-20 Approve/Revoke/IncreaseAllowance/DecreaseAllowance entry points (only their inner arithmetic), erc20 precompile approvals, read-only queries. SDK message servers, authz keeper and Accept functions are assumed contracts transcribed from the SDK source; EVM addresses are abstract identities with injective conversions."),
  "C05": dict(
-  text="Proved for every journal and every snapshot id: each of the eleven journal entry types' Revert restores exactly the field its mutator changed and nothing else; every StateDB / stateObject mutator appends exactly one entry recording the old value and the mutated object; journal.Revert (loop with dynamic dispatch over the entry types) undoes exactly the entries above the snapshot index - length, kept prefix, log count and per-address dirty counters are exact; Snapshot ids are strictly increasing; RevertToSnapshot reverts to exactly the journal index recorded for that id and truncates the revision stack.",
-  design="§6 C05",
-  note="Covers the StateDB half of the property. The Cosmos-side effects of precompile calls are NOT journaled on this tree (finding F6, DESIGN.md §7: a delegation made in a reverted frame persists); no obligation is registered for that yet, so it is stated here rather than proved. sortedDirties / SortedKeys range over maps and are trusted; access-list slot entries are proved at frame level only; 'a failed transaction changes only fee and nonce' is go-ethereum's state transition plus the keeper's cache-context handling, covered only as far as C07's ApplyMessageWithConfig contract goes."),
+  text="Proved for every journal and every snapshot id: each of the eleven journal entry types' Revert restores exactly the field its mutator changed and nothing else; every StateDB / stateObject mutator appends exactly one entry recording the old value and the mutated object; journal.Revert (loop with dynamic dispatch over the entry types) undoes exactly the entries above the snapshot index - length, kept prefix, log count and per-address dirty counters are exact; Snapshot ids are strictly increasing; RevertToSnapshot reverts to exactly the journal index recorded for that id and truncates the revision stack. For the precompile half the postcondition c05_undoable on staking.Delegate, distribution.WithdrawDelegatorRewards and ics20.Transfer demands that a successful call leaves the Cosmos state undoable by the journal (which, the entry types being a closed set each proved to write nothing outside the StateDB, means unchanged).",
+  design="§6 C05, §12.3 F6",
+  note="c05_undoable FAILS on this tree and is recorded as known finding F6 (three obligations), each replayed on the real code by the whole-transaction drivers (snapshot, precompile call, RevertToSnapshot, commit: the delegation / withdrawal / escrow persists). The other state-changing precompile methods carry no such clause. sortedDirties / SortedKeys range over maps and are trusted; access-list slot entries are proved at frame level only; Commit's storage loop and 'a failed transaction changes only fee and nonce' (ApplyTransaction's cache-context discipline) are not under contract yet."),
  "C10": dict(
   text="Proved per conversion path over an exact bank model and an adversarial token model (balanceOf results are whatever the token reports): each of the four convert* functions debits one representation and credits the other by exactly the message amount in a fixed order (escrow before any EVM effect; mint / unescrow / burn only after the token-side call returned true and the re-read balance moved by exactly the amount), returns an error otherwise, and leaves the bank in one of the enumerated prefix states on failure; ConvertCoin / ConvertERC20 dispatch to the path matching the pair's owner and refuse disabled pairs; the IBC receive/ack/timeout entry points convert exactly the packet amount; monitorApprovalEvent refuses any log whose first topic is the Approval signature.",
   design="§6 C10",
